@@ -27,6 +27,11 @@ def build(rng, facts, name, pair=None):
         a = live.pop(rng.randrange(len(live))); c = live.pop(rng.randrange(len(live)))
         if rng.random() < 0.5:          # the receiver has been queried (its store may have reorganised itself) before it absorbs the argument
             b.emit(rng.choice(["q %s %s" % (a, f2h(rng.random())), "kforeach %s 0" % a, "kenc scratch %s 0" % a, "kobs " + a]))
+        if rng.random() < 0.3:          # a non-consuming merge first: a copy of the receiver absorbs the argument, the receiver itself must not move
+            ja = b.emit("kobs " + a); jsa = b.emit("kstats " + a) if exact else None
+            b.kcopy("cp", a); b.kmerge("cp", c)
+            b.emit("kobs " + a, ("same", ja))
+            if exact: b.emit("kstats " + a, ("same", jsa))
         j0 = b.emit("kobs " + c) if rng.random() < 0.7 else None       # (sometimes the argument is not read before the merge either)
         b.kmerge(a, c)
         if j0 is None: j0 = b.emit("kobs " + c)
